@@ -213,6 +213,27 @@ func (a *app) Info(req abci.RequestInfo) abci.ResponseInfo {
 			res.LastBlockAppHash = hh.Sum(nil)
 		}
 	}
+	if is := a.w.scn.App.Info; is != nil {
+		res.AppVersion = is.Version
+		switch is.Hash {
+		case "flip":
+			if len(res.LastBlockAppHash) > 0 {
+				res.LastBlockAppHash[len(res.LastBlockAppHash)/2] ^= 0x10
+			}
+		case "empty":
+			res.LastBlockAppHash = nil
+		case "longer":
+			res.LastBlockAppHash = append(res.LastBlockAppHash, 0)
+		}
+		switch is.Height {
+		case "+1":
+			res.LastBlockHeight++
+		case "-1":
+			res.LastBlockHeight--
+		case "0":
+			res.LastBlockHeight = 0
+		}
+	}
 	switch a.w.scn.App.InfoLie {
 	case "height":
 		res.LastBlockHeight++
